@@ -165,6 +165,20 @@ pub fn judge_path(case: &Case, oc: &OracleCell, path: &Path, trace: &Trace, ci: 
     let park = pose_of(&case.park);
     let steps: Vec<Pose> = case.steps.iter().map(pose_of).collect();
 
+    // the forward kinematics used to judge LAND / TRACE / PARK must itself be the published OPW
+    // geometry behind base and tool (independent formula), otherwise the clauses below prove nothing
+    for w in path.iter().take(3).chain(path.iter().rev().take(2)) {
+        if w.0.iter().any(|x| !x.is_finite() || x.abs() > 50.0) {
+            continue;
+        }
+        let a = stack.forward(&w.0);
+        let b = oracle::independent_forward(&case.cell, &w.0);
+        if (a.translation.vector - b.translation.vector).norm() > 1e-9 || a.rotation.angle_to(&b.rotation) > 1e-8 {
+            push("p:forward-kinematics", "forward-kinematics", format!("forward() of the kinematic stack deviates from the OPW geometry for {:?}", w.0));
+            break;
+        }
+    }
+
     // (c) flags and order
     let land_idx: Vec<usize> = path.iter().enumerate().filter(|(_, w)| w.1 & F_LAND != 0).map(|(i, _)| i).collect();
     if land_idx.len() != 1 {
